@@ -253,6 +253,79 @@ theorem malformed_is_error (t : Bytes) :
     simp [this]
     omega
 
+/-! ## `bin.Fields` — the flags word of conditional fields -/
+
+/-- `Set`, `Unset`, `Has` on bit positions 0..31 of a 32-bit word: set makes the bit present, unset
+absent, neither touches another position, both stay 32-bit. -/
+theorem fields_laws (f n m : Nat) (hf : f < 2 ^ 32) (hn : n < 32) :
+    fieldsHas (fieldsSet f n) n = true ∧ fieldsHas (fieldsUnset f n) n = false ∧
+    (m ≠ n → fieldsHas (fieldsSet f n) m = fieldsHas f m ∧ fieldsHas (fieldsUnset f n) m = fieldsHas f m) ∧
+    fieldsSet f n < 2 ^ 32 ∧ fieldsUnset f n < 2 ^ 32 ∧ (∀ k, fieldsHas 0 k = false) := by
+  refine ⟨?_, ?_, ?_, fieldsSet_lt f n hf, fieldsUnset_lt f n hf, ?_⟩
+  · rw [fieldsHas_eq, testBit_fieldsSet]; simp [hn]
+  · rw [fieldsHas_eq, testBit_fieldsUnset f n n hf]; simp
+  · intro hm
+    have h1 : ¬ n = m := fun h => hm h.symm
+    constructor
+    · rw [fieldsHas_eq, fieldsHas_eq, testBit_fieldsSet]; simp [h1]
+    · rw [fieldsHas_eq, fieldsHas_eq, testBit_fieldsUnset f n m hf]; simp [h1]
+  · intro k; rw [fieldsHas_eq]; simp
+
+/-- Positions ≥ 32 do not exist in a `uint32`: `Has` is false, `Set`/`Unset` change nothing. -/
+theorem fields_out_of_range (f n : Nat) (hf : f < 2 ^ 32) (hn : 32 ≤ n) :
+    fieldsHas f n = false ∧ fieldsSet f n = f ∧ fieldsUnset f n = f := by
+  have hb := bit32_ge n hn
+  refine ⟨?_, ?_, ?_⟩
+  · rw [fieldsHas_eq]; have : ¬ n < 32 := by omega
+    simp [this]
+  · simp [fieldsSet, hb]
+  · unfold fieldsUnset
+    rw [hb, Nat.xor_zero]
+    apply Nat.eq_of_testBit_eq
+    intro i
+    rw [Nat.testBit_and, Nat.testBit_two_pow_sub_one]
+    by_cases hi : i < 32
+    · simp [hi]
+    · have : f.testBit i = false :=
+        Nat.testBit_lt_two_pow (Nat.lt_of_lt_of_le hf (Nat.pow_le_pow_right (by decide) (by omega)))
+      simp [this]
+
+/-- The flags word round-trips (`Encode` = `PutUint32`, `Decode` = `Int32` reinterpreted). -/
+theorem fields_roundtrip (f : Nat) (hf : f < 2 ^ 32) (rest : Bytes) :
+    getFields (putFields f ++ rest) = .ok (f, rest) ∧ (putFields f).length % 4 = 0 :=
+  ⟨getFields_putFields f hf rest, by simp [putFields, putU32]⟩
+
+/-! ## `bin.Buffer` housekeeping and `bin.Pool` (buffer reuse as the codecs use it) -/
+
+/-- `ResetN`/`Expand` give zero bytes of the requested length (a negative length is the `make`
+panic); `Skip` of an encoding's length lands exactly behind it; a buffer taken from the pool is
+clean whatever was in it when it was put back. -/
+theorem buffer_housekeeping (b x rest recycled : Bytes) (n : Nat) :
+    bufResetN (n : Int) = .ok (zeros n) ∧ bufExpand b (n : Int) = .ok (b ++ zeros n) ∧
+    bufResetN (-(n : Int) - 1) = .panic ∧
+    bufSkip (x ++ rest) x.length = .ok rest ∧
+    (b.length < n → bufSkip b n = .panic) ∧
+    poolGetSize recycled (n : Int) = .ok (zeros n) ∧ poolGet recycled = [] := by
+  have hn0 : ¬ ((n : Int) < 0) := by omega
+  refine ⟨?_, ?_, ?_, ?_, ?_, ?_, rfl⟩
+  · simp [bufResetN, goMake, hn0]
+  · simp [bufExpand, goMake, hn0]
+  · have : (-(n : Int) - 1 < 0) := by omega
+    simp [bufResetN, goMake, this]
+  · simp [bufSkip, goFrom]
+  · intro h
+    have : ¬ n ≤ b.length := by omega
+    simp [bufSkip, goFrom, this]
+  · simp [poolGetSize, bufResetN, goMake, hn0]
+
+/-- `Buffer.Read` is a faithful `io.Reader`: for any sequence of read sizes the chunks delivered,
+in order, followed by what is left, are the buffer's content; with positive sizes summing to at
+least the length the buffer is drained. -/
+theorem buffer_read_is_reader (ks : List Nat) (b : Bytes) :
+    (readChunks ks b).1.flatten ++ (readChunks ks b).2 = b ∧
+    ((∀ k ∈ ks, 0 < k) → b.length ≤ ks.sum → (readChunks ks b).2 = []) :=
+  ⟨readChunks_concat ks b, readChunks_drains ks b⟩
+
 /-! ## Non-vacuity: concrete values on both sides of the 253/254 switch -/
 
 example : getBytes (putBytes (List.replicate 253 7) ++ [1, 2]) = .ok (List.replicate 253 7, [1, 2]) :=
